@@ -425,9 +425,10 @@ def trusted_fn_hashes():
         except Exception:
             src = None
         for fn in e['fns']:
-            key = e['file'] + '::' + fn
+            hdr, name = (fn if isinstance(fn, list) else (None, fn))
+            key = e['file'] + '::' + ((hdr + '::') if hdr else '') + name
             try:
-                st, _ob, cb = extract.find_fn(src, fn)
+                st, _ob, cb = extract.find_fn(src, name, hdr)
                 toks = ' '.join(t[0] for t in rustlex.tokens(src[st:cb + 1]))
                 out[key] = hashlib.sha256(toks.encode()).hexdigest()[:16]
             except Exception:
@@ -447,7 +448,8 @@ def changed_trusted_units(units):
     out = []
     for e in cfg.get('entries', []):
         for fn in e['fns']:
-            key = e['file'] + '::' + fn
+            hdr, name = (fn if isinstance(fn, list) else (None, fn))
+            key = e['file'] + '::' + ((hdr + '::') if hdr else '') + name
             if key in base and cur.get(key) != base[key]:
                 for u in e['units']:
                     if u in units:
